@@ -150,8 +150,8 @@ func (db *DB) Merge() error {
 	if err != nil {
 		return err
 	}
-	// 向文件写入未参与该次 merge 的最近数据文件id
-	if err := mergeFinishedFile.WriteMergeFinRecord(nonMergeFileId); err != nil {
+	// 向文件写入未参与该次 merge 的最近数据文件id 以及重写得到的数据文件个数
+	if err := mergeFinishedFile.WriteMergeFinRecord(nonMergeFileId, mergeDB.activeFile.ID+1); err != nil {
 		return err
 	}
 	if err := mergeFinishedFile.Close(); err != nil {
@@ -198,6 +198,7 @@ func (db *DB) mergePath() string {
 }
 
 // 尝试加载 merge 临时目录
+// 每一步之后的目录状态都可以被再次执行本方法恢复, 中途崩溃后重复执行不会丢失数据
 func (db *DB) loadMergeFiles() (uint32, error) {
 	mergePath := db.mergePath()
 	// 如果 merge 目录不存在或其他错误则执行正常加载流程
@@ -205,34 +206,28 @@ func (db *DB) loadMergeFiles() (uint32, error) {
 		return 0, nil
 	}
 
-	// 尝试从标识文件中取出未参与 merge 的最近数据文件 id
-	mergeID := db.getNonMergeFileID(mergePath)
-	// 标识文件不存在同样执行正常加载流程
-	if mergeID == 0 {
+	// 尝试从标识文件中取出未参与 merge 的最近数据文件 id 与重写得到的文件个数
+	mergeID, mergedFiles := db.getNonMergeFileID(mergePath)
+	// 标识文件不存在或不完整, 说明 merge 未完成, 执行正常加载流程
+	if mergeID == 0 || mergedFiles > mergeID {
 		return 0, nil
 	}
 
-	defer func() {
-		// 加载完成后删除 merge 目录
-		_ = os.RemoveAll(mergePath)
-	}()
-
-	// 处理经过重写的数据文件, 处理中途失败需返回错误
+	// 处理经过重写的数据文件, 处理中途失败需返回错误, 此时保留 merge 目录以便下次重试
 	for fileID := uint32(0); fileID < mergeID; fileID++ {
-		// 删除原数据文件
 		destName := datafile.GetFileName(db.options.DirPath, fileID, datafile.DataFileSuffix)
-		var exist bool
-		if _, err := os.Stat(destName); err == nil {
-			if err = os.Remove(destName); err != nil {
+		if fileID >= mergedFiles {
+			// 该 id 没有对应的重写文件, 原数据文件中的有效数据已全部重写到更小 id 的文件中
+			if err := os.Remove(destName); err != nil && !os.IsNotExist(err) {
 				return 0, err
 			}
-			exist = true
+			continue
 		}
-		// 将重写的数据文件移动到数据目录中
+		// 将重写的数据文件移动到数据目录中, rename 原子地替换原数据文件
 		srcFile := datafile.GetFileName(mergePath, fileID, datafile.DataFileSuffix)
 		if _, err := os.Stat(srcFile); err != nil {
-			// 如果原数据文件不存在, 则允许重写文件不存在
-			if !exist && os.IsNotExist(err) {
+			// 重写文件已不在 merge 目录中, 说明此前被中断的加载过程已将其移动完成
+			if os.IsNotExist(err) {
 				continue
 			}
 			return 0, err
@@ -242,26 +237,39 @@ func (db *DB) loadMergeFiles() (uint32, error) {
 		}
 	}
 
-	// 移动对应的 hint 文件, 移动失败应当返回错误
+	// 移动对应的 hint 文件, 移动失败应当返回错误; 已被此前中断的加载过程移动则跳过
 	srcHintFile := datafile.GetFileName(mergePath, 0, datafile.HintFileSuffix)
 	destHintFile := datafile.GetFileName(db.options.DirPath, 0, datafile.HintFileSuffix)
-	if _, err := os.Stat(srcHintFile); err != nil {
+	if _, err := os.Stat(srcHintFile); err == nil {
+		if err := os.Rename(srcHintFile, destHintFile); err != nil {
+			return 0, err
+		}
+	} else if !os.IsNotExist(err) {
 		return 0, err
 	}
-	if err := os.Rename(srcHintFile, destHintFile); err != nil {
+
+	// 全部加载完成后才删除 merge 目录
+	if err := os.RemoveAll(mergePath); err != nil {
 		return 0, err
 	}
 
 	return mergeID, nil
 }
 
-// 获取 merge 完成标识文件中保存的未参与 merge 的最近数据文件id
+// 获取 merge 完成标识文件中保存的未参与 merge 的最近数据文件id 与重写得到的数据文件个数
 // 返回 0 表示读取失败
-func (db *DB) getNonMergeFileID(dirPath string) datafile.FileID {
+func (db *DB) getNonMergeFileID(dirPath string) (datafile.FileID, uint32) {
+	// 标识文件不存在时不得创建新文件
+	if _, err := os.Stat(datafile.GetFileName(dirPath, 0, datafile.MergeFinishedFileSuffix)); err != nil {
+		return 0, 0
+	}
 	mergeFinishedFile, err := datafile.OpenFile(dirPath, 0, datafile.MergeFinishedFileSuffix, fio.StandardFIO)
 	if err != nil {
-		return 0
+		return 0, 0
 	}
+	defer func() {
+		_ = mergeFinishedFile.Close()
+	}()
 	return mergeFinishedFile.ReadMergeFinRecord()
 }
 
